@@ -165,6 +165,10 @@ def run(F, ck, tier):
     ck.rule('R17.5', 'proof decoder lengths equal the circuit\'s own length definitions (FRI oracle table, shape validator), compared as polynomials over type-qualified struct fields')
     from . import lengths
     lengths.check(F, ck, 'R17.5')
+    # ---------------------------------------------------------------- R17.7
+    ck.rule('R17.7', 'readers and writers that walk the FRI arity schedule never multiply the position by the arity at that position (a uniform-arity assumption: mixed schedules would be decoded with other indices than they were encoded with)')
+    from . import c16
+    c16.uniform_arity(F, ck, 'R17.7')
     # ---------------------------------------------------------------- R17.6
     ck.rule('R17.6', 'a decoder that reads circuit data and a proof from one stream reads the proof with THAT circuit data (the writer stored them together), not with the enclosing circuit\'s')
     PROOF_READS = {'read_proof_with_public_inputs', 'read_compressed_proof_with_public_inputs', 'read_proof', 'read_compressed_proof'}
